@@ -9,7 +9,43 @@ ASSUMPTIONS = [
     "Model/Edit.v is a hand-written model of ModuleFunctions::replace_imported_func / replace_exported_func; it is tied to the code by replaying every edit the harness performs on real walrus (every imported and every exported function of every input, plus edits that must be refused) and comparing the emitted section stream (this run)",
     "the replacement bodies are builder programs (marker constant, optional trap, results of the right types); the builder model is the one checked by C15",
     "that the edited module validates is observed (wasmparser validator) for every case, not proved",
+    "behaviour of the edited module is observed by executing it in node against the expected-behaviour model: replace_imported_func(env.imp, no-op body) must equal the original run with a no-op host function; replace_exported_func(f, constant body) must return the constants from that export and leave every other export as it was",
 ]
+
+
+def _run18(a):
+    import subprocess
+    d, i = a
+    try:
+        r = subprocess.run(["node", "--experimental-wasm-relaxed-simd", os.path.join(core.VERIF, "js", "run18.mjs"), d, i], capture_output=True, text=True, timeout=30)
+        if r.stdout.strip():
+            return json.loads(r.stdout.strip().splitlines()[-1])
+        return {"id": i, "verdict": "crash", "err": r.stderr[-300:]}
+    except subprocess.TimeoutExpired:
+        return {"id": i, "verdict": "timeout"}
+
+
+def execute_edits(ctx, thorough, search):
+    import shutil, concurrent.futures as cf
+    out = os.path.join(ctx.work, "exec" + ("_search" if search else ""))
+    shutil.rmtree(out, ignore_errors=True)
+    rc, o, dt = core.sh([core.vh(), "c18gen", out, str(ctx.seed + (1818 if search else 0)), str(400 if thorough else 30)], timeout=2400)
+    if rc != 0:
+        return [{"class": "harness", "what": "c18gen failed: " + o[-300:], "input": None}], {}
+    idx = json.load(open(os.path.join(out, "index.json")))
+    with cf.ThreadPoolExecutor(16) as ex:
+        res = list(ex.map(_run18, [(out, i) for i in idx["ids"]]))
+    ov, tally = [], {}
+    for r in res:
+        tally[r["verdict"]] = tally.get(r["verdict"], 0) + 1
+        if r["verdict"] == "differs":
+            plan = json.load(open(os.path.join(out, "%s.plan.json" % r["id"])))
+            ov.append({"class": "edit-behaviour-differs:%s" % ("replace_imported_func" if r.get("kind") == 1 else "replace_exported_func"),
+                       "what": "%s: %s" % (r.get("name"), "; ".join(r["mismatches"])[:600]),
+                       "input": {"module_hex": open(os.path.join(out, "%s.in.wasm" % r["id"]), "rb").read().hex(), "edit": plan["name"], "calls": plan["calls"]},
+                       "replay_cmd": "node js/run18.mjs <dir> <id> (dir from `vh c18gen`): original (kind 1: with a no-op host function) vs edited module, same call sequence"})
+    return ov, {"edited_modules_executed": len(res), "verdicts": tally, "replace_imported": idx.get("replace_imported"), "replace_exported": idx.get("replace_exported"),
+                "calls": sum(r.get("calls", 0) for r in res), "calls_of_replaced_export": sum(r.get("replaced_calls", 0) for r in res)}
 
 
 def correspondence(ctx, thorough, search, prop="C18", sub=""):
@@ -30,9 +66,12 @@ def correspondence(ctx, thorough, search, prop="C18", sub=""):
     ov = [{"class": v["class"], "what": v["what"], "input": {"module_hex": v.get("input")},
            "replay_cmd": "parse <module_hex> with walrus, perform the edit named in `what` with a body `i32.const 24301; drop; <results>`, emit, validate"}
           for v in meta.get("oracle_violations", []) if prop in v.get("props", "").split()]
+    # behavioural half: the edited modules executed against the expected-behaviour model (js/run18.mjs)
+    xo, xcov = execute_edits(ctx, thorough, search)
+    ov += [v for v in xo if prop in ("C18",)]
     cov = {"evaluations": meta["cases"], "distinct_nontrivial": meta["cases"],
            "rule": "corpus + fixtures mentioning imports/calls/elements + attribute cross-product modules with at least one imported or exported function; for EVERY imported function replace_imported_func, for EVERY exported local function replace_exported_func, and for 1 in 6 of the others an edit that must be refused; replacement body with or without use of the arguments, trapping or returning",
            "samples": meta["samples"], "traces_validated_against_impl": n_eval,
            "input_distribution": {k: meta[k] for k in ("inputs", "replace_imported_edits", "replace_exported_edits")},
-           "exhaustive": False}
+           "execution": xcov, "exhaustive": False}
     return {"disagreements": dis, "oracle_violations": ov, "coverage": cov}
